@@ -123,6 +123,8 @@ type pkt struct {
 	ackWritten   bool
 	ackCount     int // accepted acknowledgements on the source
 	relayerOnDst *accountRef
+	agent        *sendInfo
+	nested       bool
 }
 
 type accountRef struct{ eth common.Address }
